@@ -146,6 +146,24 @@ def wide_chunk_case(n, kind, flip):
     return Case([inst.open_line(1, n)] + lines + [{"op": "archive.close", "h": 1, "case": n}], desc={"three-digit chunks": [kind, flip]})
 
 
+def twice_stored_case(n, kind, flip):
+    """one path held by two chunks with different entries (each designates a real file): whichever the handle answers with, it must
+    answer the same before and after other lookups were served from either chunk"""
+    inst = Installation([0, 1], 0)
+    dup = "bg/ffxiv/dup/same.lgb"
+    others = {}
+    for chunk in (0, 1, 3):
+        off = inst.place(0, 2, chunk, chunk % 2, small_std(500 + chunk))
+        if chunk != 3:
+            inst.add_entry(0, 2, chunk, kind, list(dup.encode()), chunk % 2, off)
+        o2 = inst.place(0, 2, chunk, 0, small_std(600 + chunk))
+        others[chunk] = "bg/ffxiv/dup/only%d.lgb" % chunk
+        inst.add_entry(0, 2, chunk, kind, list(others[chunk].encode()), 0, o2)
+    order = [dup, others[1], dup, others[3], dup, others[0], dup] if not flip else [others[3], dup, others[1], dup, others[0], dup]
+    lines = [{"op": "archive.query", "h": 1, "case": n, "q": q, "path": list(p.encode())} for q in ("find_offset", "extract", "exists") for p in order]
+    return Case([inst.open_line(1, n)] + lines + [{"op": "archive.close", "h": 1, "case": n}], desc={"stored twice": [kind, flip]})
+
+
 def sweep_case(n, cat, ex, chunk, plat):
     """one path per data file dat0..dat7, all at the same offset, each with its own content; every query kind on each"""
     inst = Installation([0, ex], plat)
@@ -190,6 +208,8 @@ def check(run):
         cases.append(odd_path_case(base + 2 + i, kind))
         cases.append(wide_chunk_case(base + 4 + 2 * i, kind, False))
         cases.append(wide_chunk_case(base + 5 + 2 * i, kind, True))
+        cases.append(twice_stored_case(base + 8 + 2 * i, kind, False))
+        cases.append(twice_stored_case(base + 9 + 2 * i, kind, True))
     run.rule = ("one query history per transition (layout, memo before, call, memo after) of the bounded handle model (TLC VIEW; "
                 "913 layouts of <= 2 stored paths over chunk x index/index2/both x dat, 8 probe paths incl. case twins, fallback, "
                 "unknown category; histories <= 3 calls; quick replays a seeded 6%), plus stratified random installations (all 15 "
@@ -199,7 +219,7 @@ def check(run):
     run.assumptions = ["index layout recalled from the public SqPack description; the index-type value is written where the "
                        "library reads it (byte 296, value 0/1) and where the recalled layout has it (u32 at 300, value 0/2): "
                        "unverifiable offline, see DESIGN 5 C01",
-                       "a path is stored in at most one chunk (unambiguous location)"]
+                       "a path is stored in at most one chunk (unambiguous location) except in the stored-twice cases, where either entry is accepted but the answer must not change along the history"]
 
 
 def replay(run, rp):
